@@ -157,6 +157,16 @@ def gen_sessions(ctx, salt, nsess, boards_choices, strategies_per, arrivals_fn=N
     for i in range(nsess):
         nb = r.choice(boards_choices)
         arr = arrivals_fn(r) if arrivals_fn else four_arrivals(r, style=styles[i % len(styles)])
+        # some boards of a multi-board session are passed out by the whole table (played and passed-out boards in either order)
+        po = [b for b in range(1, nb + 1) if r.random() < 0.35] if nb > 1 else []
+        if nb > 1 and i % 2 == 0:
+            po = sorted(set(po) | {r.randint(2, nb)}) if i % 4 == 0 else [1]   # a passed-out board after a played one / before one
+            for a in arr:
+                if a.get('style') == 'pass':
+                    a['style'] = 'competitive'
+            po = [b for b in po if b != 1] if i % 4 == 0 else po
+        for a in arr:
+            a['passout_boards'] = po
         base = dict(boards=gen_boards(r, nb), arrivals=arr)
         strats = ['rr'] + r.sample(STRATEGIES[1:], strategies_per - 1)
         for st in strats:
